@@ -617,6 +617,7 @@ Proof.
   intros m0 v [E|Hin]; [subst j; discriminate Ej|exact (B m0 v Hin)].
 Qed.
 
+Ltac own := cbn -[Nat.eqb]; unfold updN, th; rewrite ?Nat.eqb_refl; cbn -[Nat.eqb]; unfold updN, th; rewrite ?Nat.eqb_refl; cbn -[Nat.eqb]; try reflexivity.
 Ltac oth E := cbn -[Nat.eqb]; unfold updN, th; cbn -[Nat.eqb]; unfold updN, th; rewrite ?Nat.eqb_refl;
   repeat match goal with |- context [Nat.eqb ?a ?b] =>
     let Y := fresh "Y" in destruct (Nat.eqb_spec a b) as [Y|Y]; [exfalso; first [exact (E Y)|exact (E (eq_sym Y))]|] end;
@@ -1276,3 +1277,268 @@ Proof.
       |intros m0 q0 x Y; destruct (C m0 q0 x Y) as [C1 C2]; split; [apply Wk; right; split; [exact Ne|exact C1]|exact C2]]].
   - intros u c Hq0 Wc. destruct (Nat.eq_dec u u0) as [->|Ne]; [rewrite Hcu0' in Hq0; discriminate Hq0|]. rewrite (Ho u Ne) in *. apply (f_pr _ _ _ R u c Hq0 Wc).
 Qed.
+
+Definition pendF (t : tid) (c : cmd) (done : option retv) : fpend :=
+  match c, done with CPSend q x, Some _ => FSendBad t q x | CPDrop q, Some _ => FDropBad t q | _, _ => FNone end.
+
+Lemma ghost_f14_plain : forall e, plain e -> is_ghost e = true -> f14_plain e.
+Proof. intros e P G. destruct e; cbn in *; try contradiction; try discriminate; auto. Qed.
+
+Lemma get_tid_cons_other : forall (u t : tid) (b : bool) l, u <> t -> get_tid u ((t, b) :: l) = get_tid u l.
+Proof. intros u t b l H. cbn. destruct (Nat.eqb_spec t u); [exfalso; apply H; auto|reflexivity]. Qed.
+
+Lemma on_pipe_last : forall q q0 x l, on_pipe q (l ++ [(q0, x)]) = on_pipe q l ++ (if q0 =? q then [x] else []).
+Proof. intros. rewrite on_pipe_app. cbn. destruct (q0 =? q); reflexivity. Qed.
+
+Ltac fid s0 t R Sm Hc Hcu0 new :=
+  eapply (f_idle_q s0 _ _ _ t _ new R Sm);
+  [ reflexivity | intros ? ?; thr_simpl | exact Hc | exact Hcu0 | thr_simpl | thr_simpl | pe_fp | thr_simpl
+  | let j := fresh in let Hj := fresh in intros j Hj; cbn in Hj; repeat (destruct Hj as [<-|Hj]); try contradiction; exact Logic.I
+  | try exact Logic.I ]
+with pe_fp := let q := fresh "q" in let E := fresh "E" in
+  intro q; cbn; unfold updZ; try (destruct (q =? _) eqn:E; [apply Z.eqb_eq in E; subst q|]); cbn; repeat split; try reflexivity; auto.
+
+(** a worker begins [recv] / [send] / [cancel] *)
+Lemma f_wbegin : forall s0 m t c cs a,
+  XInv s0 -> ERel ENone s0 m -> FRel FNone s0 m -> (t < nthr s0)%nat -> tcont (thr s0 t) = [] -> tcur (thr s0 t) = None ->
+  wcmd c -> 0 <= tpipe (thr s0 t) -> pr a = true -> (forall m0 v, a <> IUnlock m0 (URet v)) ->
+  ((forall m0 q, a = ILock m0 (LPqRecv q) \/ a = ICvReacq q -> c = CRecv /\ q = tpipe (thr s0 t)) /\
+   (forall m0 q, a = ILock m0 (LPqCancelGet q) -> c = CCancel /\ q = tpipe (thr s0 t)) /\
+   (forall m0 q x, a = ILock m0 (LPqLSend q x) -> c = CLSend x /\ q = tpipe (thr s0 t))) ->
+  FRel FNone (set_cont (upd_th s0 t (set_tret (set_tcur (set_tscript (th s0 t) cs) (Some c)) RUnit)) t [a]) (m14r_step m (t, ECmd c)).
+Proof.
+  intros s0 m t c cs a X E R Ht Hc Hcu0 Wc Lp Pa Nu Own.
+  set (s1 := upd_th s0 t (set_tret (set_tcur (set_tscript (th s0 t) cs) (Some c)) RUnit)).
+  set (st2 := set_cont s1 t [a]). set (m1 := m14r_step m (t, ECmd c)). set (pq := tpipe (thr s0 t)) in *.
+  assert (W : wkr s0 t) by (split; [exact Ht|exact Lp]).
+  assert (Nm : t <> main) by (intro Y; subst t; exact (main_not_wkr s0 X W)).
+  assert (Ow : get_tid t (m14_owner m) = Some pq).
+  { rewrite (owner_of s0 m t E Ht). fold pq. destruct (Z.leb_spec 0 pq); [reflexivity|lia]. }
+  assert (Mf : m14_psend m1 = m14_psend m /\ m14_recvd m1 = m14_recvd m /\ m14_dropped m1 = m14_dropped m /\
+               m14_late m1 = (t, memZ pq (m14_dropped m)) :: m14_late m).
+  { unfold m1, m14r_step, m14_step. destruct c; try destruct Wc; cbn; rewrite Ow; cbn; repeat split; reflexivity. }
+  destruct Mf as [M1 [M2 [M3 M4]]].
+  assert (Hc2 : tcont (thr st2 t) = [a]) by (unfold st2, s1; thr_simpl).
+  assert (Tr2 : tret (thr st2 t) = RUnit) by (unfold st2, s1; thr_simpl).
+  destruct (pr_kinds a Pa) as [Sa [Ia1 Ia2]].
+  assert (Mc : mcont st2 = mcont s0) by (unfold mcont, st2, s1; cbn -[Nat.eqb]; unfold updN, th; cbn -[Nat.eqb]; unfold updN, th; destruct (Nat.eqb_spec main t) as [Y|Y]; [exfalso; apply Nm; auto|reflexivity]).
+  assert (Lt : is_late m1 t -> memZ pq (m14_dropped m) = true).
+  { unfold is_late. rewrite M4. cbn. rewrite Nat.eqb_refl. intro Y. inversion Y. reflexivity. }
+  assert (Va : rvals [a] = []) by (apply rvals_one; intros m0 z Y; exact (Nu m0 _ Y)).
+  apply (f_idle FNone s0 st2 m m1 t c R).
+  - reflexivity.
+  - intros u Hu. unfold st2, s1. thr_simpl.
+  - unfold st2, s1. thr_simpl.
+  - unfold st2, s1. thr_simpl.
+  - intro q. repeat split; auto.
+  - exact M2.
+  - exact M3.
+  - intros u Hu. rewrite M4. apply get_tid_cons_other. exact Hu.
+  - intros u q x Y. discriminate Y.
+  - intros u q Y. discriminate Y.
+  - intros q Hq. unfold dps. rewrite M1, Mc. destruct (f_noex _ _ _ R q Hq) as [A [_ [_ [_ [_ [_ B]]]]]]. auto.
+  - intros u Wu. cbn zeta. unfold dps. rewrite M1, Mc. pose proof (f_ps _ _ _ R u Wu) as L. cbn zeta in L. unfold dps in L. rewrite L.
+    destruct (Nat.eq_dec u t) as [->|Hu]; [|replace (thr st2 u) with (thr s0 u) by (unfold st2, s1; thr_simpl); reflexivity].
+    unfold rtransit. rewrite Hc2, Hc, Hcu0, Va, Tr2. replace (tcur (thr st2 t)) with (Some c) by (unfold st2, s1; thr_simpl). destruct c; reflexivity.
+  - intros _ L. apply (f_drop _ _ _ R pq (Lt L)).
+  - intros _ L. rewrite Tr2, Hc2. split; [destruct c; exact Logic.I|]. intros m0 v [Y|[]]. exfalso. exact (Nu m0 v Y).
+  - intros m0 q x Hin. exfalso. rewrite Hc2 in Hin. destruct Hin as [Y|[]]. exact (Ia1 m0 q x Y).
+  - intros q x Y. subst c. destruct Wc.
+  - intros q Y. subst c. destruct Wc.
+  - intros m0 q Hin. exfalso. rewrite Hc2 in Hin. destruct Hin as [Y|[]]. exact (Ia2 m0 q Y).
+  - intros _. exact Wc.
+  - intros m0 v Hin. rewrite Hc2 in Hin. destruct Hin as [Y|[]]. exact (Nu m0 v Y).
+  - intros j Hin. rewrite Hc2 in Hin. destruct Hin as [<-|[]]. destruct Own as [O1 [O2 O3]].
+    split; [intros m0 q Y; destruct (O1 m0 q Y); auto|split; [intros m0 q Y; destruct (O2 m0 q Y); auto|intros m0 q x Y; destruct (O3 m0 q x Y); auto]].
+  - intros _. rewrite Hc2, Tr2. unfold prcount. cbn [filter]. rewrite Pa. cbn. split; [lia|reflexivity].
+Qed.
+
+Lemma begin_F : forall s0 m t c cs st2 ev0 done,
+  CInv (core s0) -> pristine s0 -> XInv s0 -> UInv s0 -> PqInv s0 -> ERel ENone s0 m -> FRel FNone s0 m -> (t < nthr s0)%nat ->
+  tcont (thr s0 t) = [] -> tcur (thr s0 t) = None -> tscript (thr s0 t) = c :: cs -> cmd_ok c ->
+  begin_cmd (upd_th s0 t (set_tret (set_tcur (set_tscript (th s0 t) cs) (Some c)) RUnit)) t c = (st2, ev0, done) ->
+  FRel (pendF t c done) st2 (fold_left m14r_step (evs t (ECmd c :: ev0)) m).
+Proof.
+  intros s0 m t c cs st2 ev0 done I P X U Q E R Ht Hc Hcu0 Hs Hok H.
+  set (s1 := upd_th s0 t (set_tret (set_tcur (set_tscript (th s0 t) cs) (Some c)) RUnit)) in *.
+  assert (P1 : pristine s1) by (unfold s1; prist s0 t).
+  assert (I1 : CInv (core s1)) by (eapply CInv_ceq; [|exact I]; unfold s1; same_core).
+  destruct (begin_cmd_sum s1 t c st2 ev0 done P1 Ht H) as [Hpl _].
+  assert (Pev : forall e, In e ev0 -> f14_plain e) by (intros e He; destruct (Hpl e He); apply ghost_f14_plain; assumption).
+  change (evs t (ECmd c :: ev0)) with ((t, ECmd c) :: evs t ev0). cbn [fold_left].
+  set (m1 := m14r_step m (t, ECmd c)).
+  apply (f_msame _ _ m1); [|apply m14r_fplain_fold; exact Pev].
+  assert (Own : get_tid t (m14_owner m) = if 0 <=? tpipe (thr s0 t) then Some (tpipe (thr s0 t)) else None) by (apply owner_of; auto).
+  assert (Tp1 : tpipe (th s1 t) = tpipe (thr s0 t)) by (unfold s1; thr_simpl).
+  assert (Plain : npcmd c -> f14_same m m1).
+  { intro Nc. apply m14r_fplain_step. destruct c; try exact Logic.I; destruct Nc. }
+  assert (Inst : npcmd c -> FRel FNone s1 m1).
+  { intro Nc. unfold s1. fid s0 t R (Plain Nc) Hc Hcu0 (@nil instr). exact Nc. }
+  assert (Hc1 : tcont (thr s1 t) = []) by (unfold s1; thr_simpl; exact Hc).
+  assert (Hcu1 : tcur (thr s1 t) = Some c) by (unfold s1; thr_simpl).
+  destruct c as [w|w|c0 x|c0|w|n| | | | | |c0|c0|p0|p0 x|p0| |x| | ]; cbn [begin_cmd pendF] in *.
+  - (* CWake *)
+    destruct (wreg s1 w) as [wi|]; [|inversion H; subst; apply Inst; exact Logic.I].
+    destruct (climb_start s1 wi (Some (HPlain w))) as [i|] eqn:Ec; inversion H; subst; clear H; [|apply Inst; exact Logic.I].
+    apply climb_at_climb in Ec. destruct Ec as [k ->]. unfold s1. fid s0 t R (Plain Logic.I) Hc Hcu0 [IClimb k].
+  - destruct (wreg s1 w) as [wi|] eqn:Ew; [|inversion H; subst; apply Inst; exact Logic.I].
+    destruct (wbusy s1 w); inversion H; subst; clear H; unfold s1.
+    + fid s0 t R (Plain Logic.I) Hc Hcu0 [ILock MDL (LPush (wbit wi) (wbm wi) (HPlain w))].
+    + fid s0 t R (Plain Logic.I) Hc Hcu0 (@nil instr).
+  - destruct (Waker.creg (chs s1 c0)); inversion H; subst; clear H; [|apply Inst; exact Logic.I]. unfold s1. fid s0 t R (Plain Logic.I) Hc Hcu0 [ILock (MCh c0) (LChSend c0 x)].
+  - destruct (Waker.creg (chs s1 c0)); inversion H; subst; clear H; [|apply Inst; exact Logic.I]. unfold s1. fid s0 t R (Plain Logic.I) Hc Hcu0 [ILock (MCh c0) (LChClosed c0)].
+  - (* CNew *)
+    destruct (negb (is_main t) || wused s1 w || (1000000 <=? w) || (w <? 0)); [inversion H; subst; apply Inst; exact Logic.I|].
+    destruct (wh_add s1 (HPlain w)) as [[sa wi]|] eqn:Ea; inversion H; subst; clear H; [|apply Inst; exact Logic.I].
+    assert (Hh : HPlain w <> HReserved) by discriminate.
+    destruct (wh_add_post s1 _ sa wi I1 Hh Ea) as [_ [_ [_ [Ed [Et [En [Ew [Eu [Ech Ep]]]]]]]]].
+    pose proof (Inst Logic.I) as R1. clear Inst. clearbody s1.
+    apply (f_steq _ s1 _ _ R1); [cbn; exact En|cbn; exact Ep|intro u; cbn; rewrite Et; repeat split; reflexivity].
+  - (* CFill *)
+    destruct (negb (is_main t)); [inversion H; subst; apply Inst; exact Logic.I|].
+    destruct (fill_loop (Z.to_nat n) s1 []) as [sa ev1] eqn:Ea. inversion H; subst; clear H.
+    destruct (fill_loop_slab _ _ _ _ _ I1 Ea) as [_ [_ [A3 [A4 [A5 A6]]]]].
+    pose proof (Inst Logic.I) as R1. apply (f_steq _ s1 _ _ R1); [exact A6|exact A5|intro u; rewrite A3; repeat split; reflexivity].
+  - destruct (negb (is_main t)); inversion H; subst; clear H; [apply Inst; exact Logic.I|]. unfold s1. fid s0 t R (Plain Logic.I) Hc Hcu0 [ITopSwap; IRun].
+  - destruct (negb (is_main t)); [inversion H; subst; apply Inst; exact Logic.I|].
+    destruct (gnotified s1); inversion H; subst; clear H; [|apply Inst; exact Logic.I]. unfold s1. fid s0 t R (Plain Logic.I) Hc Hcu0 [ITopSwap; IRun].
+  - (* CSpawn *)
+    destruct (negb (is_main t)); inversion H; subst; clear H; [apply Inst; exact Logic.I|].
+    pose proof (Inst Logic.I) as R1.
+    assert (Wex1 : forall u, wkr s1 u -> pexists (pps s1 (tpipe (thr s1 u))) = true).
+    { intros u W. assert (W0 : wkr s0 u) by (destruct W as [A B]; split; [exact A|revert B; unfold s1; thr_impl]).
+      pose proof (e_wex _ _ _ E u W0) as Z0. revert Z0. unfold s1. thr_impl. }
+    apply (f_spawn s1 _ m1 (-1) false Wex1 R1).
+    + destruct P1 as [Z0 _]. exact Z0.
+    + reflexivity.
+    + intros u Hu. cbn -[Nat.eqb]. unfold updN, th. match goal with |- context [Nat.eqb ?a ?b] => destruct (Nat.eqb_spec a b) as [Y|Y] end; [exfalso; apply Hu; exact Y|reflexivity].
+    + destruct P1 as [_ Z0]. apply Z0. lia.
+    + unfold s1. cbn -[Nat.eqb]. unfold updN, th. destruct (Nat.eqb_spec (nthr s0) t) as [Y|Y]; [exfalso; lia|apply U; lia].
+    + cbn -[Nat.eqb]. unfold updN, th. rewrite Nat.eqb_refl. reflexivity.
+    + cbn -[Nat.eqb]. unfold updN, th. rewrite Nat.eqb_refl. reflexivity.
+    + cbn -[Nat.eqb]. unfold updN, th. rewrite Nat.eqb_refl. reflexivity.
+    + split; [intro L; exfalso; lia|intro L; discriminate L].
+    + intros; reflexivity.
+    + intro L. discriminate L.
+  - destruct (negb (is_main t)); inversion H; subst; clear H; [apply Inst; exact Logic.I|]. unfold s1. fid s0 t R (Plain Logic.I) Hc Hcu0 [IJoin].
+  - destruct (negb (is_main t)); inversion H; subst; clear H; [apply Inst; exact Logic.I|]. unfold s1. fid s0 t R (Plain Logic.I) Hc Hcu0 [IIdle].
+  - (* CCNew *)
+    destruct (negb (is_main t) || cexists (chs s1 c0)); [inversion H; subst; apply Inst; exact Logic.I|].
+    destruct (wh_add s1 (HChan c0)) as [[sa wi]|] eqn:Ea; inversion H; subst; clear H; [|apply Inst; exact Logic.I].
+    assert (Hh : HChan c0 <> HReserved) by discriminate.
+    destruct (wh_add_post s1 _ sa wi I1 Hh Ea) as [_ [_ [_ [Ed [Et [En [Ew [Eu [Ech Ep]]]]]]]]].
+    apply (f_idle_q s0 _ m m1 t (CCNew c0) [ILock (MCh c0) (LChInit c0)] R (Plain Logic.I)).
+    + cbn. rewrite En. reflexivity.
+    + intros u Hu. cbn -[Nat.eqb]. unfold updN, th. destruct (Nat.eqb_spec u t); [contradiction|]. cbn. rewrite Et. unfold s1. thr_simpl.
+    + exact Hc.
+    + exact Hcu0.
+    + cbn -[Nat.eqb]. unfold updN, th. rewrite Nat.eqb_refl. cbn. rewrite Et. exact Hcu1.
+    + cbn -[Nat.eqb]. unfold updN, th. rewrite Nat.eqb_refl. cbn. rewrite Et. exact Tp1.
+    + intro q. cbn. rewrite Ep. unfold s1. cbn. repeat split; auto.
+    + cbn -[Nat.eqb]. unfold updN, th. rewrite Nat.eqb_refl. reflexivity.
+    + intros j [<-|[]]. exact Logic.I.
+    + exact Logic.I.
+  - (* CCDrop *)
+    destruct (negb (is_main t) || negb (cguard (chs s1 c0))); inversion H; subst; clear H; [apply Inst; exact Logic.I|].
+    unfold s1. fid s0 t R (Plain Logic.I) Hc Hcu0 [ILock (MCh c0) (LChClose c0)].
+  - (* CPNew *)
+    destruct (negb (is_main t) || pexists (pps s1 p0)) eqn:Eg; [inversion H; subst; apply Inst; exact Logic.I|].
+    apply orb_false_iff in Eg. destruct Eg as [_ Eex].
+    destruct (wh_add s1 (HPipe p0)) as [[sa wi]|] eqn:Ea; inversion H; subst; clear H; [|apply Inst; exact Logic.I].
+    assert (Hh : HPipe p0 <> HReserved) by discriminate.
+    destruct (wh_add_post s1 _ sa wi I1 Hh Ea) as [_ [_ [_ [Ed [Et [En [Ew [Eu [Ech Ep]]]]]]]]].
+    pose proof (Inst Logic.I) as R1.
+    assert (Wex1 : forall u, wkr s1 u -> pexists (pps s1 (tpipe (thr s1 u))) = true).
+    { intros u W. assert (W0 : wkr s0 u) by (destruct W as [A B]; split; [exact A|revert B; unfold s1; thr_impl]).
+      pose proof (e_wex _ _ _ E u W0) as Z0. revert Z0. unfold s1. thr_impl. }
+    assert (Pr1 : tcont (thr s1 (nthr s1)) = []) by (destruct P1 as [_ Z0]; apply Z0; lia).
+    assert (Cu1 : tcur (thr s1 (nthr s1)) = None).
+    { unfold s1. cbn -[Nat.eqb]. unfold updN, th. destruct (Nat.eqb_spec (nthr s0) t) as [Y|Y]; [exfalso; lia|apply U; lia]. }
+    assert (N1 : (1 <= nthr s1)%nat) by (destruct P1 as [Z0 _]; exact Z0).
+    clear Inst Plain. clearbody s1.
+    apply (f_spawn s1 _ m1 p0 true Wex1 R1 N1).
+    + cbn. rewrite En. reflexivity.
+    + intros u Hu. cbn -[Nat.eqb]. unfold updN, th. rewrite En. destruct (Nat.eqb_spec u (nthr s1)) as [Y|Y]; [exfalso; apply Hu; exact Y|]. cbn. rewrite Et. reflexivity.
+    + exact Pr1.
+    + exact Cu1.
+    + cbn -[Nat.eqb]. unfold updN, th. rewrite En, Nat.eqb_refl. reflexivity.
+    + cbn -[Nat.eqb]. unfold updN, th. rewrite En, Nat.eqb_refl. reflexivity.
+    + cbn -[Nat.eqb]. unfold updN, th. rewrite En, Nat.eqb_refl. reflexivity.
+    + split; [reflexivity|intros _; exact Hok].
+    + intros q' [Y|Y]; [discriminate Y|]. cbn. unfold updZ. destruct (Z.eqb_spec q' p0); [contradiction|]. rewrite Ep. reflexivity.
+    + intros _. split; [exact Eex|]. cbn. unfold updZ. rewrite Z.eqb_refl. cbn. repeat split; reflexivity.
+  - (* CPSend *)
+    assert (Mf : m14_psend m1 = m14_psend m ++ [(p0, x)] /\ m14_recvd m1 = m14_recvd m /\ m14_dropped m1 = m14_dropped m /\ m14_late m1 = m14_late m).
+    { unfold m1, m14r_step, m14_step. cbn. repeat split; reflexivity. }
+    destruct Mf as [M1 [M2 [M3 M4]]].
+    assert (NoLate : ~ is_late m1 t).
+    { intro L. unfold is_late in L. rewrite M4 in L. destruct (f_late_cur _ _ _ R t L) as [c1 [E1 _]]. rewrite Hcu0 in E1. discriminate E1. }
+    assert (Tr1 : tret (thr s1 t) = RUnit) by (unfold s1; thr_simpl).
+    assert (Mc1 : mcont s1 = mcont s0).
+    { unfold mcont. destruct (Nat.eq_dec main t) as [Y|Y]; [rewrite Y, Hc1, Hc; reflexivity|]. replace (thr s1 main) with (thr s0 main); [reflexivity|]. unfold s1. cbn -[Nat.eqb]. unfold updN, th. destruct (Nat.eqb_spec main t); [contradiction|reflexivity]. }
+    destruct (negb (is_main t) || negb (phandle (pps s1 p0))) eqn:Eg; inversion H; subst st2 ev0 done; clear H.
+    + (* the command fails at once *)
+      apply (f_idle (FSendBad t p0 x) s0 s1 m m1 t (CPSend p0 x) R).
+      * reflexivity.
+      * intros u Hu. unfold s1. thr_simpl.
+      * exact Hcu1.
+      * unfold s1. thr_simpl.
+      * intro q. repeat split; auto.
+      * exact M2.
+      * exact M3.
+      * intros u _. rewrite M4. reflexivity.
+      * intros u q y Y. inversion Y; subst u q y. split; [reflexivity|]. split; [reflexivity|]. split; [exact Hc1|exists (m14_psend m); exact M1].
+      * intros u q Y. discriminate Y.
+      * intros q Hq. unfold dps. rewrite M1, removelast_last. destruct (f_noex _ _ _ R q Hq) as [A [_ [_ [_ [_ [_ B]]]]]]. split; [exact A|].
+        rewrite Mc1. exact B.
+      * intros u W. cbn zeta. unfold dps. rewrite M1, removelast_last. pose proof (f_ps _ _ _ R u W) as L. cbn zeta in L. unfold dps in L. rewrite L.
+        rewrite Mc1.
+        destruct (Nat.eq_dec u t) as [->|Hu]; [|replace (thr s1 u) with (thr s0 u) by (unfold s1; thr_simpl); reflexivity].
+        unfold rtransit. rewrite Hc1, Hc, Hcu1, Hcu0. reflexivity.
+      * intros _ L. exfalso. exact (NoLate L).
+      * intros _ L. exfalso. exact (NoLate L).
+      * intros m0 q y Hin. rewrite Hc1 in Hin. destruct Hin.
+      * intros q y _. exact Tr1.
+      * intros q Y. discriminate Y.
+      * intros m0 q Hin. rewrite Hc1 in Hin. destruct Hin.
+      * intro L. exfalso. exact (NoLate L).
+      * intros m0 v Hin. rewrite Hc1 in Hin. destruct Hin.
+      * intros j Hin. rewrite Hc1 in Hin. destruct Hin.
+      * intros [].
+    + apply orb_false_iff in Eg. destruct Eg as [Em Eh]. apply negb_false_iff in Em, Eh. unfold is_main in Em. apply Nat.eqb_eq in Em. subst t.
+      assert (Hh : phandle (pps s0 p0) = true) by exact Eh.
+      assert (Ex : pexists (pps s0 p0) = true).
+      { destruct (pexists (pps s0 p0)) eqn:Ee; [reflexivity|]. destruct (f_noex _ _ _ R p0 Ee) as [_ [_ [_ [_ [_ [Z0 _]]]]]]. rewrite Z0 in Hh. discriminate Hh. }
+      assert (Mc0 : mcont s0 = []) by exact Hc.
+      set (st2 := set_cont s1 main [ILock (MPq p0) (LPqSend p0 x)]).
+      assert (Hc2 : tcont (thr st2 main) = [ILock (MPq p0) (LPqSend p0 x)]) by (unfold st2, s1; thr_simpl).
+      assert (Mc2 : mcont st2 = [ILock (MPq p0) (LPqSend p0 x)]) by exact Hc2.
+      apply (f_idle FNone s0 st2 m m1 main (CPSend p0 x) R).
+      * reflexivity.
+      * intros u Hu. unfold st2, s1. symmetry. oth Hu.
+      * unfold st2, s1. own.
+      * unfold st2, s1. own.
+      * intro q. repeat split; auto.
+      * exact M2.
+      * exact M3.
+      * intros u _. rewrite M4. reflexivity.
+      * intros u q y Y. discriminate Y.
+      * intros u q Y. discriminate Y.
+      * intros q Hq. assert (Nq : p0 <> q) by (intro Y; subst q; rewrite Ex in Hq; discriminate Hq).
+        unfold dps. rewrite M1, on_pipe_last, Mc2. cbn. destruct (Z.eqb_spec p0 q); [contradiction|]. rewrite app_nil_r.
+        destruct (f_noex _ _ _ R q Hq) as [A _]. split; [exact A|reflexivity].
+      * intros u W. cbn zeta. unfold dps. rewrite M1, on_pipe_last, Mc2. pose proof (f_ps _ _ _ R u W) as L. cbn zeta in L. unfold dps in L. rewrite L, Mc0.
+        assert (Hu : u <> main) by (intro Y; subst u; exact (main_not_wkr s0 X W)).
+        replace (thr st2 u) with (thr s0 u) by (unfold st2, s1; oth Hu). cbn [spend flat_map app]. rewrite !app_nil_r, <- !app_assoc. reflexivity.
+      * intros _ L. exfalso. exact (NoLate L).
+      * intros _ L. exfalso. exact (NoLate L).
+      * intros m0 q y Hin. rewrite Hc2 in Hin. destruct Hin as [Y|[]]. inversion Y; subst. auto.
+      * intros q y _. unfold st2, s1. own.
+      * intros q Y. discriminate Y.
+      * intros m0 q Hin. rewrite Hc2 in Hin. destruct Hin as [Y|[]]. discriminate Y.
+      * intro L. exfalso. exact (NoLate L).
+      * intros m0 v Hin. rewrite Hc2 in Hin. destruct Hin as [Y|[]]. discriminate Y.
+      * intros j Hin. rewrite Hc2 in Hin. destruct Hin as [<-|[]].
+        split; [intros m0 q [Y|Y]; discriminate Y|split; [intros m0 q Y; discriminate Y|intros m0 q y Y; discriminate Y]].
+      * intros [].
+  - Abort.
